@@ -118,13 +118,22 @@ func (s *OnDiskAggTrigger) Fire(keyPath string, records []trigger.Record) {
 	}
 	tbk := io.NewTimeBucketKey(strings.Join(elements[:len(elements)-1], "/"))
 
+	// the earliest and the latest written bar (the records are in request order, not in time order)
+	minIndex, maxIndex := records[0].Index(), records[0].Index()
+	for i := range records {
+		if idx := records[i].Index(); idx < minIndex {
+			minIndex = idx
+		} else if idx > maxIndex {
+			maxIndex = idx
+		}
+	}
 	head := io.IndexToTime(
-		records[0].Index(),
+		minIndex,
 		tf.Duration,
 		int16(year))
 
 	tail := io.IndexToTime(
-		records[len(records)-1].Index(),
+		maxIndex,
 		tf.Duration,
 		int16(year))
 
